@@ -20,7 +20,7 @@ CLAIMED = {
     technique="SAT-based bounded model checking (Kani/CBMC) of one allocator step from a symbolic valid state, and SMT (z3, QF_BV) over MIR-extracted kind tables of the marker visitors; native replay by concrete playback / a collection-and-churn program on the real engine",
     design="§4 C04"),
  "C06": dict(
-    text="Bounded model checking (Kani/CBMC) of the real global symbol table over short symbolic evaluation histories (definitions over 3 names, slot release as the recycler does it, a failed evaluation rolled back as the engine does it) against a ghost table of the binding in force per name. Plus an SMT query over the kind table of the global-slot recycler read from MIR, compared with the markers' tables (no kind whose children the markers trace is skipped by the recycler).",
+    text="Bounded model checking (Kani/CBMC) of the real global symbol table over short symbolic evaluation histories (definitions over 3 names, slot release as the recycler does it, a failed evaluation rolled back as the engine does it) against a ghost table of the binding in force per name. Plus an SMT query over the kind table of the global-slot recycler read from MIR, compared with the markers' tables (no kind whose children the markers trace is skipped by the recycler), and one over the opcode tables of VmCore::vm and of the recycler (every opcode whose interpreter arm hands its own payload to a global accessor is on the recycler's scan list).",
     note="hashbrown replaced by association-list stubs (trusted: finite map/set). Histories: <= 3 successful definitions, 1 definition in the failed evaluation (2 do not fit the solver's memory). Outside: the recycler's scan of closure bytecode for global indices, the compiler's choice of slots, module roll-back, JIT-embedded slots.",
     technique="SAT-based bounded model checking (Kani/CBMC) of symbolic operation histories on the real symbol table with a ghost model, and SMT (z3, QF_BV) over the MIR-extracted kind table of the slot recycler; native replay by concrete playback / a redefinition history on the real engine",
     design="§4 C06"),
